@@ -19,7 +19,7 @@ from __future__ import annotations
 import ast
 
 from ..astutil import calls, dotted, kwarg, method_call, norm, walk
-from ..cfg import build_cfg
+from ..cfg import Builder, build_cfg, inline_local
 from ..flow import Defs, _Sel, origins
 from ..paths import normal_only
 from ..report import Check
@@ -61,12 +61,28 @@ def _join_nodes(g, upstream="self.upstream"):
     return out
 
 
+def _graph(chk: Check, fi):
+    return Builder(chk.proj, inline_local, 3).build(fi)
+
+
+def _req_name(g, fi) -> str:
+    """Name under which the incoming request is known where the join is built
+    (the helper's own parameter when the URL mapping was extracted)."""
+    joins = _join_nodes(g)
+    if joins and joins[0].stack:
+        callee = joins[0].func
+        ps = [p for p in callee.params if p not in ("self", "cls")]
+        if ps:
+            return ps[0]
+    return [p for p in fi.params if p != "self"][0]
+
+
 def rule_y1(chk: Check, ci) -> None:
     chk.rule("Y1", "at the join with the upstream base the path provably starts with '/'; upstream validated; query only behind '?'")
     fi = ci.methods.get("_handle_async")
     if fi is None:
         chk.floor("Y1", "_handle_async", 0, 1)
-    g = build_cfg(chk.proj, fi)
+    g = _graph(chk, fi)
     joins = _join_nodes(g)
     if not chk.require("Y1", fi.key, "join f'{self.upstream}{path}'", len(joins), 1, "the upstream URL is no longer built as upstream base + path"):
         return
@@ -76,12 +92,13 @@ def rule_y1(chk: Check, ci) -> None:
     ok = path_expr is not None and len(parts) == 2
     if not ok:
         chk.finding("Y1", fi.key, "join-shape", f"the upstream URL is built as `{norm(jn.ast.value)}`: something other than base + path is concatenated", jn.where())
-    req = [p for p in fi.params if p != "self"][0]
+    req = _req_name(g, fi)
+    outer = [p for p in fi.params if p != "self"][0]
     n_paths = 0
     bad = None
     for strip in (BoolV(True), BoolV(False)):
         interp = Interp(chk.proj, fi)
-        interp.oracle = {f"{req}.path": StrV("str", prefix="/"), f"{req}.query": StrV("str"), "self.prefix": StrV("str"), "self.strip_prefix": strip, "self.upstream": StrV("str", prefix="gemini://")}
+        interp.oracle = {f"{outer}.path": StrV("str", prefix="/"), f"{outer}.query": StrV("str"), f"{req}.path": StrV("str", prefix="/"), f"{req}.query": StrV("str"), "self.prefix": StrV("str"), "self.strip_prefix": strip, "self.upstream": StrV("str", prefix="gemini://")}
         res = interp.run_paths(g, lambda n, _j=jn, _e=path_expr: [_e] if n.id == _j.id and _e is not None else [], {})
         for path, (st, recs) in res:
             for node, vals, _ in recs:
@@ -104,7 +121,7 @@ def rule_y1(chk: Check, ci) -> None:
         if n.kind == "stmt" and isinstance(n.ast, ast.AugAssign) and "upstream_url" in norm(n.ast.target):
             nq += 1
             v = n.ast.value
-            if not (isinstance(v, ast.JoinedStr) and isinstance(v.values[0], ast.Constant) and v.values[0].value == "?" and len(v.values) == 2 and dotted(v.values[1].value) == f"{req}.query"):
+            if not (isinstance(v, ast.JoinedStr) and isinstance(v.values[0], ast.Constant) and v.values[0].value == "?" and len(v.values) == 2 and dotted(v.values[1].value) in (f"{req}.query", f"{outer}.query")):
                 okq = False
                 chk.finding("Y1", fi.key, f"query-append:{norm(v)[:40]}", "something other than '?' + the client's query string is appended to the upstream URL", n.where())
     chk.ob("Y1", "query appended only as '?' + request.query", okq, evals=max(1, nq))
@@ -129,12 +146,13 @@ def rule_y1(chk: Check, ci) -> None:
 def rule_y2(chk: Check, ci) -> None:
     chk.rule("Y2", "strip table with exact samples: prefix removed iff stripping is on and the prefix matches on a segment boundary")
     fi = ci.methods["_handle_async"]
-    g = build_cfg(chk.proj, fi)
+    g = _graph(chk, fi)
     joins = _join_nodes(g)
     if not joins:
         return
     jn = joins[0]
-    req = [p for p in fi.params if p != "self"][0]
+    req = _req_name(g, fi)
+    outer = [p for p in fi.params if p != "self"][0]
     table = [
         # (prefix, strip, path) -> expected path sent upstream
         ("/api/", True, "/api/resource", "/resource"),
@@ -150,7 +168,7 @@ def rule_y2(chk: Check, ci) -> None:
     ]
     for prefix, strip, path, want in table:
         interp = Interp(chk.proj, fi)
-        interp.oracle = {f"{req}.path": lit(path), f"{req}.query": lit(""), "self.prefix": lit(prefix), "self.strip_prefix": BoolV(strip), "self.upstream": lit("gemini://backend:1965")}
+        interp.oracle = {f"{outer}.path": lit(path), f"{outer}.query": lit(""), f"{req}.path": lit(path), f"{req}.query": lit(""), "self.prefix": lit(prefix), "self.strip_prefix": BoolV(strip), "self.upstream": lit("gemini://backend:1965")}
         res = interp.run_paths(g, lambda n, _j=jn: [_j.ast.value] if n.id == _j.id else [], {})
         got = set()
         for p, (st, recs) in res:
@@ -169,8 +187,10 @@ def rule_y3_y4(chk: Check, ci) -> None:
     chk.rule("Y3", "no re-encoding (quote/unquote/lower/encode/normpath) of path or query before the join")
     chk.rule("Y4", "exactly one fetch through self._client with follow_redirects=False; the client is constructed once in __init__")
     fi = ci.methods["_handle_async"]
+    g = _graph(chk, fi)
+    all_calls = [c for n in g.nodes if n.ast is not None and n.kind in ("stmt", "test", "with") for c in calls(n.ast if not isinstance(n.ast, ast.withitem) else n.ast.context_expr)]
     bad = []
-    for c in calls(fi.node):
+    for c in all_calls:
         d = (dotted(c.func) or "").split(".")[-1]
         mc = method_call(c)
         if d in ("quote", "unquote", "quote_plus", "unquote_plus", "normpath", "urljoin", "urlunparse"):
@@ -179,14 +199,13 @@ def rule_y3_y4(chk: Check, ci) -> None:
             bad.append(c)
     for c in bad:
         chk.finding("Y3", fi.key, f"reencode:{norm(c)[:40]}", f"`{norm(c)}` reinterprets the client's path/query on its way upstream", fi.loc(c))
-    chk.ob("Y3", f"{fi.key}: path and query forwarded verbatim", not bad, evals=len(list(calls(fi.node))))
-    gets = [c for c in calls(fi.node) if method_call(c) and method_call(c)[1] == "get" and dotted(method_call(c)[0]) == "self._client"]
+    chk.ob("Y3", f"{fi.key}: path and query forwarded verbatim", not bad, evals=len(all_calls))
+    gets = [c for c in all_calls if method_call(c) and method_call(c)[1] == "get" and dotted(method_call(c)[0]) == "self._client"]
     ok = len(gets) == 1
-    other_net = [c for c in calls(fi.node) if method_call(c) and method_call(c)[1] in ("create_connection", "open_connection", "upload", "delete") or (dotted(c.func) or "").split(".")[-1] in ("GeminiClient",)]
+    other_net = [c for c in all_calls if method_call(c) and method_call(c)[1] in ("create_connection", "open_connection", "upload", "delete") or (dotted(c.func) or "").split(".")[-1] in ("GeminiClient",)]
     if ok:
         fr = kwarg(gets[0], "follow_redirects")
         ok = isinstance(fr, ast.Constant) and fr.value is False
-        g = build_cfg(chk.proj, fi)
         d = Defs(g)
         node = next(x for x in g.nodes if x.ast is not None and any(cc is gets[0] for cc in calls(x.ast)))
         arg = gets[0].args[0] if gets[0].args else kwarg(gets[0], "url")
